@@ -26,6 +26,7 @@ EXTENDS Catalogue, Json
 
 CONSTANTS Catalogue,      \* sequence of batches
           MaxSegs,        \* segments per merge
+          SelIds,         \* catalogue entries that may be selected
           Dev
 
 VARIABLES sel, drops
@@ -126,7 +127,7 @@ MergedDocValues(k, f) ==
 (* The checked instance: every selection of catalogue entries with every deletion set *)
 
 Init ==
-    /\ sel \in UNION {[1..n -> DOMAIN Catalogue] : n \in 1..MaxSegs}
+    /\ sel \in UNION {[1..n -> SelIds] : n \in 1..MaxSegs}
     /\ drops \in [DOMAIN sel -> SUBSET (0..2)]
     /\ \A i \in DOMAIN sel : drops[i] \subseteq 0..(Len(Catalogue[sel[i]]) - 1)
 Next == UNCHANGED vars
